@@ -33,8 +33,8 @@ def locals_for(rng, names, fmt):
 
 def lit_pool(rng, strings):
     """4 literals: two with a shorthand (numeric / boolean), two strings (plain / language / typed) over hostile characters"""
-    short1 = rng.choice([("42", "integer"), ("-7", "integer"), ("0", "integer"), ("+5", "integer"), ("1.5", "decimal"), ("-0.25", "decimal"), (".5", "decimal")])
-    short2 = rng.choice([("true", "boolean"), ("false", "boolean"), ("1.0E0", "double"), ("1e3", "double"), ("-2.5E-3", "double"), ("1.E2", "double"), (".5e1", "double")])
+    short1 = rng.choice([("42", "integer"), ("-7", "integer"), ("0", "integer"), ("+5", "integer"), ("1.5", "decimal"), ("-0.25", "decimal"), (".5", "decimal"), ("-.5", "decimal"), ("+.25", "decimal"), ("+1.0", "decimal")])
+    short2 = rng.choice([("true", "boolean"), ("false", "boolean"), ("1.0E0", "double"), ("1e3", "double"), ("-2.5E-3", "double"), ("1.E2", "double"), (".5e1", "double"), ("-.5e1", "double"), ("+.5E-1", "double"), ("+1.E2", "double"), ("-1e+3", "double")])
     out = [{"v": short1[0], "dt": XSD + short1[1], "short": True}, {"v": short2[0], "dt": XSD + short2[1], "short": True}]
     for _ in range(2):
         s = rng.choice(strings)
